@@ -620,6 +620,54 @@ fn keygen_case(api: &'static SetApi, xi: &[u8; 32], class: &str) -> (Option<Viol
     (None, tags)
 }
 
+/// Volume sweep over counter seeds (tag "kgsweep") with a reference-free oracle: the public key returned by key generation
+/// must serialise to the same bytes as the one derived from the returned private key (a different code path: expansion of
+/// the stored s1, s2 and a fresh A s1 + s2), and neither call may panic. Every `ref_every`-th seed is also compared with
+/// the reference KeyGen_internal; a seed that fails the cheap oracle is always compared with the reference. Returns
+/// (seed, pk differs from reference, derived differs from generated, panic text).
+pub fn keygen_sweep(api: &'static SetApi, n: u64, ref_every: u64) -> Vec<([u8; 32], bool, bool, Option<String>)> {
+    let p = api.p;
+    (0..n)
+        .into_par_iter()
+        .filter_map(|i| {
+            let xi = alpha::counter32(0, "kgsweep", i);
+            let mut panic = None;
+            let mut pkb = None;
+            let mut derived = None;
+            match (api.keygen_seed)(&xi) {
+                Err(pn) => panic = Some(format!("keygen_from_seed: {}", pn.0)),
+                Ok((pk, sk)) => {
+                    match pk.to_bytes() {
+                        Ok(b) => pkb = Some(b),
+                        Err(pn) => panic = Some(format!("PublicKey::into_bytes: {}", pn.0)),
+                    }
+                    match sk.derive_pk().and_then(|k| k.to_bytes()) {
+                        Ok(b) => derived = Some(b),
+                        Err(pn) => panic = Some(format!("get_public_key: {}", pn.0)),
+                    }
+                }
+            }
+            let inconsistent = pkb.is_some() && derived.is_some() && pkb != derived;
+            if panic.is_none() && !inconsistent && (ref_every == 0 || i % ref_every != 0) {
+                return None;
+            }
+            let want = refmodel::keygen_internal(p, &xi);
+            let differs = pkb.as_ref() != Some(&want.pk);
+            if panic.is_none() && !inconsistent && !differs {
+                return None;
+            }
+            Some((xi, differs, inconsistent, panic))
+        })
+        .collect()
+}
+pub fn keygen_sweep_size(tier: Tier, set: u32) -> u64 {
+    match (tier, set) {
+        (Tier::Quick, _) => 30_000,
+        (Tier::Thorough, 87) => 4_000_000,
+        (Tier::Thorough, _) => 2_000_000,
+    }
+}
+
 pub fn c04(cx: &Ctx, rep: &mut Report) {
     rep.rule = "seeds: 0^32, FF^32, 256 one-hot, counter seeds, plus model-selected seeds (sampler-only reference runs pick the first counter seed whose ExpandA meets a 3-byte candidate = q, a maximal accepted value q-1, a candidate 2^23-1); each through keygen_from_seed and try_keygen_with_rng; oracle = byte equality with reference KeyGen_internal (pk and sk), RNG log, struct equality of both entry points, determinism. Non-trivial = structured (extremal / one-hot) or model-selected seed, or counter seed whose key meets a Power2Round tie / t1 = 1023 (classified by the model).".into();
     let ncounter = cx.tier.pick(256u64, 32768);
@@ -674,6 +722,22 @@ pub fn c04(cx: &Ctx, rep: &mut Report) {
             }
         }
         rep.sample(json!({"set": p.id, "model_selected_seed_indices": format!("{rare:?}"), "example_seed": hex(&seeds[2].0)}));
+        // volume sweep: counter seeds 0..n, cheap self-consistency oracle on all of them, reference on every 256th and on
+        // every seed that fails the cheap oracle (reaches implementation-level rare events no model can name in advance)
+        let n = keygen_sweep_size(cx.tier, p.id);
+        let t = std::time::Instant::now();
+        let bad = keygen_sweep(api, n, 256);
+        rep.count("sweep:counter-seeds", n);
+        rep.count("sweep:reference-compared", n / 256 + bad.len() as u64);
+        rep.extra.insert(format!("keygen_sweep_mldsa{}", p.id), json!({"seeds": n, "tag": "kgsweep", "reference_every": 256, "wall_s": t.elapsed().as_secs_f64()}));
+        for (xi, differs, inconsistent, panic) in bad {
+            let replay = json!({"engine":"api","set":p.id,"ops":[{"op":"keygen_both","seed":hex(&xi),"expect_pk_fnv":format!("{:016x}",fnv(&refmodel::keygen_internal(p, &xi).pk)),"expect_sk_fnv":format!("{:016x}",fnv(&refmodel::keygen_internal(p, &xi).sk))}]});
+            if let Some(pn) = panic {
+                rep.violate(Violation { key: format!("c04:sweep:panic:{}", pn.split('@').next_back().unwrap_or("").trim()), summary: format!("ML-DSA-{} seed {} (volume sweep): {pn}", p.id, hex(&xi)), replay });
+            } else if differs {
+                rep.violate(Violation { key: "c04:sweep:pk-differs".into(), summary: format!("ML-DSA-{} seed {} (volume sweep): public key differs from KeyGen_internal (generated and derived public keys agree: {})", p.id, hex(&xi), !inconsistent), replay });
+            }
+        }
     }
     rep.require_class("one_hot");
     rep.require_class("counter");
@@ -901,6 +965,25 @@ pub fn c10(cx: &Ctx, rep: &mut Report) {
         let eb = p.eta_bits();
         let nv = 1u32 << eb;
         let maxok = (2 * p.eta) as u32;
+        // whole-key shapes with every field in range (constant / zero polynomials, extremal t0, inconsistent K/tr): accepted,
+        // and re-serialised to the same bytes
+        for (name, skb) in alpha::sk_shapes(p, &refmodel::keygen_internal(p, &alpha::counter32(cx.seed, "seed", 3))) {
+            rep.count(&format!("mldsa{}_in_range_shapes", p.id), 1);
+            if name != "generated" {
+                rep.nontrivial_case(fnv(&[name.as_bytes(), &[p.id as u8]].concat()));
+            }
+            debug_assert!(refmodel::sk_fields_in_range(p, &skb));
+            let replay = json!({"engine":"api","set":p.id,"ops":[{"op":"sk_from_bytes_expect","sk":hex(&skb),"expect_ok":true}]});
+            match (api.sk_from_bytes)(&skb) {
+                Err(pn) => rep.violate(Violation { key: "c10:shape:panic".into(), summary: format!("ML-DSA-{} try_from_bytes panicked on the in-range shape '{name}': {}", p.id, pn.0), replay }),
+                Ok(Err(e)) => rep.violate(Violation { key: "c10:in-range-rejected".into(), summary: format!("ML-DSA-{} well-formed private key rejected (shape '{name}'): {e}", p.id), replay }),
+                Ok(Ok(k)) => match k.to_bytes() {
+                    Ok(b) if b == skb => {}
+                    Ok(_) => rep.violate(Violation { key: "c10:accepted-key-reserialises-differently".into(), summary: format!("ML-DSA-{} accepted key does not re-serialise to its input (shape '{name}')", p.id), replay }),
+                    Err(pn) => rep.violate(Violation { key: "c10:accepted-key-into_bytes-panics".into(), summary: format!("ML-DSA-{} into_bytes panicked on an accepted key (shape '{name}'): {}", p.id, pn.0), replay }),
+                },
+            }
+        }
         let mut bases: Vec<Vec<u8>> = vec![refmodel::keygen_internal(p, &alpha::counter32(cx.seed, "seed", 3)).sk];
         if cx.tier == Tier::Thorough {
             bases.push(alpha::sk_shapes(p, &refmodel::keygen_internal(p, &[0u8; 32]))[1].1.clone());
@@ -989,6 +1072,20 @@ pub fn c11(cx: &Ctx, rep: &mut Report) {
     let base_seeds = alpha::seeds(cx.tier, cx.seed);
     for api in APIS {
         let p = api.p;
+        // volume sweep: generated public key == public key derived from the generated private key, for counter seeds 0..n
+        let n = keygen_sweep_size(cx.tier, p.id);
+        let t = std::time::Instant::now();
+        let bad = keygen_sweep(api, n, 0);
+        rep.count("sweep:generated-vs-derived", n);
+        rep.extra.insert(format!("keygen_sweep_mldsa{}", p.id), json!({"seeds": n, "tag": "kgsweep", "wall_s": t.elapsed().as_secs_f64()}));
+        for (xi, _differs, inconsistent, panic) in bad {
+            let replay = json!({"engine":"api","set":p.id,"ops":[{"op":"keygen_seed","seed":hex(&xi)},{"op":"derive"}]});
+            if let Some(pn) = panic {
+                rep.violate(Violation { key: format!("c11:sweep:panic:{}", pn.split('@').next_back().unwrap_or("").trim()), summary: format!("ML-DSA-{} seed {} (volume sweep): {pn}", p.id, hex(&xi)), replay });
+            } else if inconsistent {
+                rep.violate(Violation { key: "c11:sweep:derived-differs".into(), summary: format!("ML-DSA-{} seed {} (volume sweep): the public key derived from the generated private key serialises differently from the generated public key", p.id, hex(&xi)), replay });
+            }
+        }
         let mut seeds = base_seeds.clone();
         seeds.extend(rare_keygen_seeds(p, cx.seed, rare_cap(cx.tier)).into_iter().map(|(_, s)| s));
         for xi in &seeds {
